@@ -394,6 +394,8 @@ func (b *Broker) RegisterPipeline(def Pipeline, opt ...Option) error {
 	}
 
 	// Store the pipeline and then update the reference count of the nodes in that pipeline.
+	// A pipeline that is being overwritten no longer references its nodes.
+	b.releaseNodes(g, def.PipelineID)
 	g.roots.Store(def.PipelineID, pipelineReg)
 	for _, id := range def.NodeIDs {
 		nodeUsage, ok := b.nodes[id]
